@@ -12,7 +12,7 @@ _driver_args = _fixed.split() if _fixed is not None else [str(n) for n in FIXED_
 
 PROP = dict(
         engine="mdm", harness="mdm", driver="drv_mdm", driver_args=_driver_args,
-        props=["Hostd.Props.C14", "Hostd.Props.C02Rpc"],   # C02Rpc: commit order of the upload handlers tied to the volumes model (C02 second engine)
+        props=["Hostd.Props.C14"],
         case_mode=True,          # every line is one independent hostile request
         flag_filter=r"^(?!c02/)", # the fsync-before-commit monitor of the upload RPCs belongs to C02 (its second engine)
         # n = wire-level (RHP2/RHP3, real host in child processes) cases, n*len = in-process accessor/updater/cost cases
